@@ -67,7 +67,13 @@ class Runtime:
             elif nd["fn"] == "const":
                 vals.append(f"{nd['tname']}.{o}")
             else:
-                vals.append(f"{nd['tname']}.{o}(" + ",".join(f"{p}={IR.canon(v)}" for p, v in args) + ")")
+                text = f"{nd['tname']}.{o}(" + ",".join(f"{p}={IR.canon(v)}" for p, v in args) + ")"
+                if len(text) > 200_000:
+                    # runaway growth (a loop that iterates far beyond what the model allows): keep the harness alive;
+                    # such a value can no longer equal any model value, which is the point
+                    import hashlib
+                    text = f"{nd['tname']}.{o}(~huge:{hashlib.sha256(text.encode()).hexdigest()[:16]})"
+                vals.append(text)
         if not outs:
             return None
         return vals[0] if len(outs) == 1 else tuple(vals)
@@ -171,6 +177,8 @@ def _mk_callable(rt, path, nd, entry):
         src = f"async def {fname}({params}):\n    r = await RT.acall({path!r}, {argt})\n    yield r + '#0'\n    yield r + '#1'\n"
     elif is_gen:                   # generator
         src = f"def {fname}({params}):\n    r = RT.call({path!r}, {argt})\n    yield r + '#0'\n    yield r + '#1'\n"
+    elif is_async and nd.get("coro"):      # a plain function that returns a coroutine
+        src = f"def {fname}({params}):\n    return RT.acall({path!r}, {argt})\n"
     elif is_async:
         src = f"async def {fname}({params}):\n    return await RT.acall({path!r}, {argt})\n"
     else:
@@ -264,7 +272,7 @@ def build_graph(rt, p, prefix="", warm=None):
     if p["bound"]:
         if warm:
             warm(g)
-        g = g.bind(**{k: v for k, v in p["bound"]})
+        g = g.bind(**{k: IR.pyval(v) for k, v in p["bound"]})
     if p["selected"] != IR.UNSET:
         if warm:
             warm(g)
@@ -329,7 +337,7 @@ def provided_dict(job):
     """Provided values; a value whose text is registered in job['lists'] is passed as a real list."""
     lists = {t: items for t, items in job.get("lists", [])}
     lit = set(job.get("literal_keys", []))       # keys whose text stands for a python literal (falsy interrupt answers)
-    return {k: (list(lists[v]) if v in lists else IR.pyval(v) if k in lit else v) for k, v in job["provided"]}
+    return {k: (list(lists[v]) if v in lists else IR.pyval(v)) for k, v in job["provided"]}
 
 
 def run_job(job, *, runner=None, event_processors=None, max_concurrency=None, cache=None, on_missing=None,
